@@ -13,6 +13,7 @@ namespace GtirbVerif.Adt
 
 inductive AdtErr
   | keyError | valueError | cfgModified | assertion | bodyRaised
+  | fuel      -- model-internal: a fuel bound was exhausted (never observed)
   deriving DecidableEq, Repr, Inhabited
 
 /-! ## IdentitySet -/
@@ -303,13 +304,16 @@ structure CtxResult where
   raised : Option AdtErr
   deriving Repr, Inhabited
 
+/-- state on entry: `cache = ReturnEdgeCache(old_cfg); ir.cfg = cache` -/
+def CtxState.init (e0in : List Edge) : CtxState :=
+  let e0 := cfgStep [] (.update e0in)     -- the caller's CFG is a set
+  { old := e0, cache := ({} : RetCache).update e0, irIsCache := true }
+
 /-- `with make_return_cache(ir) as cache: body` when `ir.cfg` is a plain CFG.
 `raises`: the body raises after performing `ops`. -/
 def runReturnCtx (h : Edge → Nat) (e0in : List Edge) (ops : List BodyOp) (raises : Bool) : CtxResult :=
-  let e0 := cfgStep [] (.update e0in)     -- the caller's CFG is a set
-  let s0 : CtxState := { old := e0, cache := ({} : RetCache).update e0, irIsCache := true }
-  let oldHash := weakHash h e0
-  let s := ops.foldl CtxState.body s0
+  let oldHash := weakHash h (CtxState.init e0in).old
+  let s := ops.foldl CtxState.body (CtxState.init e0in)
   let err : Option AdtErr :=
     if raises then some .bodyRaised
     else if weakHash h s.old != oldHash then some .cfgModified
